@@ -1,6 +1,6 @@
 SPECIFICATION SpecAll
 CONSTANTS
-  Slots <- MSlots
+  Slots <- QSlots
   Signers <- MSigners
   Hids <- MHids
   Cap = 1000
